@@ -23,6 +23,25 @@
                  and against the divisibility characterisations)
      BitLaws     the bit-vector definitions of Bits32 are the arithmetic
                  ones (a*2^n mod 2^32, floor(a/2^n), 2^32-1-a, a+b = and+or)
+   Round 3 - every number and every string, not only the compact ones:
+     NumberAxioms (ASSUME) Equal / Lt on exact values are an equivalence and a
+                 strict total order on numbers, lexicographic on strings; on
+                 compact numbers they are the half-unit comparisons; 2^53 + 1
+                 is not Equal to the decimal 2^53
+     WideLaws    the set algebra, unique and grouped over ints above 2^53
+                 beside the neighbouring decimals ("1 versus 1.0" where the
+                 conversion to a double is lossy)
+     XPermLaws   min, max, median_low, median_high, median, mean, sum, prod
+                 over such numbers, over decimals of tiny magnitude (2^-41)
+                 and over strings of several characters in both cases:
+                 invariant under every permutation
+     AgreeLaws   on compact lists the element-valued / limb-valued
+                 definitions are the Key / half-unit ones
+     PowLaws     pow with exponents up to the hundreds and with BigInt
+                 exponents for the bases 0, 1, -1; the conditions used to
+                 validate powers too long to multiply out (residues, sign,
+                 length bracket, powers of ten) hold for the true power and
+                 reject its neighbours
 
    Mirrors: modules/set.ckl, list.ckl, core.ckl, stat.ckl, math.ckl,
    functions.py FuncSum/FuncRange/FuncZip/FuncPow/FuncBit*.                 *)
@@ -32,7 +51,11 @@ CONSTANTS MaxList,     \* bound on the lists of the pair family
           MaxPerm,     \* bound on the lists whose permutations are explored
           Span,        \* integer arguments -Span..Span
           MaxShift,    \* shift counts 0..MaxShift
-          Fams,        \* families explored: subset of {"pair","flat","range","func","perm","num","bits"}
+          Fams,        \* families explored: subset of {"pair","flat","range","func","perm","num","bits",
+                       \*                                "wide","xperm","pow","powbig"}
+          MaxWide,     \* bound on the lists of the wide pair family
+          MaxXPerm,    \* bound on the multisets of wide numbers / tiny decimals / texts
+          PowExps,     \* exponents of the pow family
           Export       \* TRUE: print (arguments, expected) for every tuple
 
 SX == INSTANCE SequencesExt
@@ -50,6 +73,25 @@ NU  == <<I(1), D(2), I(2), D(5), I(3)>>          \* 1, 1.0, 2, 2.5, 3 (ordered)
 SU  == <<S(1), S(2), S(3)>>                      \* 'a', 'b', 'c'
 FU  == {I(1), L(<< >>), L(<<I(2)>>), L(<<I(1), L(<<I(3)>>)>>)}
 IU  == {-1, 0, 2, 3}
+
+\* the wide universes
+B53  == P2B(53)
+B64  == P2B(64)
+W53    == BI(B53)                          \* 2^53, an int
+W53d   == BD(B53, 0)                       \* 2^53, a decimal: Equal to W53
+W53p1  == BI(Add(B53, One))                \* 2^53 + 1: no decimal is Equal to it (its nearest double is 2^53)
+W53p2d == BD(Add(B53, BTwo), 0)            \* 2^53 + 2, a decimal
+W53p3  == BI(Add(B53, FromInt(3)))
+W64d   == BD(B64, 0)
+W64p1  == BI(Add(B64, One))                \* 2^64 + 1: its nearest double is 2^64
+WU  == {W53, W53d, W53p1, W53p2d, W64p1, W64d}
+WNU == <<W53, W53d, W53p1, W53p2d, W53p3>>                         \* ascending (W53 = W53d)
+\* decimals of tiny magnitude beside 0, 1, 1.5:  -2^-41 < 0 < 2^-41 < 3 * 2^-41 < 1 < 1.5
+FNU == <<BD(Neg(One), 41), I(0), BD(One, 41), BD(FromInt(3), 41), I(1), D(3)>>
+\* strings: '' < 'A' < 'Ab' < 'a' < 'aB' < 'ab'  (code point order; they tie when case is ignored)
+TU  == <<T(<< >>), T(<<65>>), T(<<65, 98>>), S(1), T(<<97, 66>>), T(<<97, 98>>)>>
+PowBases == {-10, -7, -3, -2, 2, 3, 7, 10, 12}
+BigExps == <<P2B(70), Add(P2B(70), One), Pow(FromInt(10), 20)>>
 
 ListsOver(E, m) == UNION {[1..k -> E] : k \in 0..m}
 \* canonical (non-decreasing) index sequences: one per multiset
@@ -76,6 +118,11 @@ Pick1 ==
        [] fam = "perm"  -> la' \in Multisets(NU, MaxPerm) \cup Multisets(SU, MaxPerm) /\ a' = 0
        [] fam = "num"   -> la' = << >> /\ a' \in Ints
        [] fam = "bits"  -> la' = << >> /\ a' \in Boundary
+       [] fam = "wide"  -> la' \in ListsOver(WU, MaxWide) /\ a' = 0
+       [] fam = "xperm" -> la' \in Multisets(WNU, MaxXPerm) \cup Multisets(FNU, MaxXPerm)
+                                    \cup Multisets(TU, MaxXPerm) /\ a' = 0
+       [] fam = "pow"   -> la' = << >> /\ a' \in PowBases
+       [] fam = "powbig" -> la' = << >> /\ a' \in {-1, 0, 1}
 
 Pick2 ==
   /\ st = "one" /\ st' = "args" /\ UNCHANGED <<fam, la, a>>
@@ -90,6 +137,10 @@ Pick2 ==
        [] fam = "bits"  -> /\ lb' = << >>                 \* (a, b) pairs, and (a, count)
                            /\ \/ b' \in Boundary /\ n' = 0
                               \/ b' = a /\ n' \in 1..MaxShift
+       [] fam = "wide"  -> lb' \in ListsOver(WU, MaxWide) /\ b' = 0 /\ n' = 0
+       [] fam = "xperm" -> lb' = << >> /\ b' = 0 /\ n' = 0
+       [] fam = "pow"   -> lb' = << >> /\ b' = 0 /\ n' \in PowExps
+       [] fam = "powbig" -> lb' = << >> /\ b' = 0 /\ n' \in 1..Len(BigExps)
 
 -----------------------------------------------------------------------------
 (* What Apply exports: the expected results of every function of the family *)
@@ -138,6 +189,31 @@ BitsRec ==
    bit_shift_left |-> Shl(a, n), bit_shift_right |-> Shr(a, n),
    bit_rotate_left |-> Rotl(a, n), bit_rotate_right |-> Rotr(a, n)]
 
+WideRec ==
+  [la |-> la, lb |-> lb,
+   union |-> Union(la, lb), intersection |-> Intersection(la, lb),
+   diff |-> Diff(la, lb), symmetric_diff |-> SymDiff(la, lb),
+   unique |-> Unique(la), grouped |-> Grouped(la)]
+
+QRec(q) == LET r == QNorm(q) IN [num |-> r.num, e |-> r.e]
+AllPerms(P(_)) == \A p \in PermsOf(la) : P(p)
+XPermRec ==
+  LET num == IsNum(la[1]) IN
+  [s |-> la, perms |-> SX!SetToSeq(PermsOf(la)), numeric |-> num,
+   min |-> MinEl(la), max |-> MaxEl(la), median_low |-> MedLowEl(la), median_high |-> MedHighEl(la),
+   \* exact: the double arithmetic is exact on EVERY permutation (the order of the additions matters)
+   sum  |-> IF num THEN [int |-> AllIntX(la), exact |-> AllPerms(ExactSum), q |-> QRec(SumQ(la)),
+                         abs |-> QRec(AbsSumQ(la))]
+            ELSE [int |-> FALSE, exact |-> FALSE, q |-> QRec(QZero), abs |-> QRec(QZero)],
+   prod |-> IF num THEN [int |-> AllIntX(la), exact |-> AllPerms(ExactProd), q |-> QRec(ProdQ(la))]
+            ELSE [int |-> FALSE, exact |-> FALSE, q |-> QRec(QZero)],
+   mean |-> [exact |-> num /\ AllPerms(ExactMean)],
+   median |-> IF num THEN [exact |-> ExactMedian(la), twice |-> QRec(MedianSumQ(la))]
+              ELSE [exact |-> FALSE, twice |-> QRec(QZero)]]
+
+PowRec    == [a |-> FromInt(a), k |-> FromInt(n), pow |-> Pow(FromInt(a), n)]
+PowBigRec == [a |-> FromInt(a), k |-> BigExps[n], pow |-> PowX(FromInt(a), BigExps[n])]
+
 Apply ==
   /\ st = "args" /\ st' = "done" /\ UNCHANGED <<fam, la, lb, a, b, n>>
   /\ CASE fam = "pair"  -> Emit("PAIR", PairRec)
@@ -147,6 +223,10 @@ Apply ==
        [] fam = "perm"  -> Emit("PERM", PermRec)
        [] fam = "num"   -> Emit("NUM", NumRec)
        [] fam = "bits"  -> Emit("BITS", BitsRec)
+       [] fam = "wide"  -> Emit("WIDE", WideRec)
+       [] fam = "xperm" -> Emit("XPERM", XPermRec)
+       [] fam = "pow"   -> Emit("POW", PowRec)
+       [] fam = "powbig" -> Emit("POW", PowBigRec)
 
 Next == Pick1 \/ Pick2 \/ Apply
 Spec == Init /\ [][Next]_vars
@@ -302,6 +382,122 @@ BitLaws == On("bits",
   /\ Rotr(Rotl(a, n), n) = a
   /\ Rotl(a, n) = Rotr(a, (32 - (n % 32)) % 32)
   /\ n >= 32 => Shl(a, n) = Zw /\ Shr(a, n) = Zw)
+
+-----------------------------------------------------------------------------
+(* Round 3: every number, every string *)
+
+CompactNums == {I(-1), I(0), I(1), D(2), I(2), D(5), I(3), D(-1), D(1)}
+WideNums == WU \cup {W53p3, BD(One, 41), BD(Neg(One), 41), BD(FromInt(3), 41), BI(Neg(B53)), BD(Neg(B53), 0)}
+Texts == {TU[i] : i \in 1..Len(TU)} \cup {S(2), T(<<97, 97>>), T(<<49, 48>>), T(<<57>>), T(<<228>>)}
+
+\* exactly one of x < y, x == y, y < x
+Trichotomy(x, y) ==
+  Cardinality({c \in {"lt", "eq", "gt"} :
+                 (c = "lt" /\ Lt(x, y)) \/ (c = "eq" /\ Equal(x, y)) \/ (c = "gt" /\ Lt(y, x))}) = 1
+
+NumberAxioms ==
+  \* a strict total order and an equivalence on all numbers, compact or wide
+  /\ \A x, y \in CompactNums \cup WideNums :
+       /\ Trichotomy(x, y)
+       /\ (Equal(x, y) <=> (Class(x) = Class(y)))
+       /\ (Equal(x, y) <=> (QCmp(QV(x), QV(y)) = 0))
+       /\ (Lt(x, y) <=> (QCmp(QV(x), QV(y)) < 0))
+       /\ (Equal(x, y) <=> (QSub(QV(x), QV(y)).num = Zero))
+       /\ \A z \in WideNums : (Lt(x, y) /\ Lt(y, z)) => Lt(x, z)
+  \* on compact numbers: the comparison of the half units
+  /\ \A x, y \in CompactNums : (Equal(x, y) <=> (Num2(x) = Num2(y))) /\ (Lt(x, y) <=> (Num2(x) < Num2(y)))
+  \* the anchors: conversion to a double would identify these
+  /\ Equal(W53, W53d) /\ ~Equal(W53p1, W53d) /\ ~Equal(W53p1, W53p2d) /\ ~Equal(W64p1, W64d)
+  /\ Lt(W53d, W53p1) /\ Lt(W53p1, W53p2d) /\ Lt(W64d, W64p1)
+  /\ Rep53(QV(W53d)) /\ ~Rep53(QV(W53p1)) /\ Rep53(QV(W53p2d)) /\ ~Rep53(QV(W64p1)) /\ Rep53(QV(BD(One, 41)))
+  /\ Rep53(QQ(Sub(P2B(53), One), 60)) /\ Rep53(QQ(P2B(80), 0)) /\ ~Rep53(QQ(Add(P2B(53), One), 60))
+  \* lowest terms
+  /\ QNorm(QQ(FromInt(12), 5)) = QQ(FromInt(3), 3) /\ QNorm(QQ(FromInt(8), 2)) = QQ(FromInt(2), 0)
+  /\ Class(BD(FromInt(6), 2)) = Class(D(3)) /\ Class(BI(FromInt(7))) = Class(I(7)) /\ Class(T(<<98>>)) = Class(S(2))
+  \* strings: lexicographic by code point, a strict total order
+  /\ \A x, y \in Texts :
+       /\ Trichotomy(x, y)
+       /\ (Equal(x, y) <=> (Cps(x) = Cps(y)))
+       /\ \A z \in Texts : (Lt(x, y) /\ Lt(y, z)) => Lt(x, z)
+  /\ \A i \in 1..(Len(TU) - 1) : Lt(TU[i], TU[i + 1])
+  /\ \A i \in 1..(Len(FNU) - 1) : Lt(FNU[i], FNU[i + 1])
+  /\ \A i \in 1..(Len(WNU) - 1) : Lt(WNU[i], WNU[i + 1]) \/ Equal(WNU[i], WNU[i + 1])
+  /\ Lt(T(<<66>>), S(1)) /\ Lt(T(<<49, 48>>), T(<<57>>)) /\ Lt(S(4), T(<<228>>))      \* 'B' < 'a', '10' < '9', 'd' < 'ae'
+  \* a number and a string are neither Equal nor ordered
+  /\ \A x \in CompactNums \cup WideNums, y \in Texts : ~Equal(x, y) /\ ~Lt(x, y) /\ ~Lt(y, x)
+
+ASSUME NumberAxioms
+
+WideLaws == On("wide",
+  /\ Members(Union(la, lb)) = MUnion(la, lb)               /\ NoDupM(Union(la, lb))
+  /\ Members(Intersection(la, lb)) = MIntersection(la, lb) /\ NoDupM(Intersection(la, lb))
+  /\ Members(Diff(la, lb)) = MDiff(la, lb)                 /\ NoDupM(Diff(la, lb))
+  /\ Members(SymDiff(la, lb)) = MSymDiff(la, lb)           /\ NoDupM(SymDiff(la, lb))
+  /\ \A x \in WU :
+       /\ In(x, Union(la, lb)) <=> (In(x, la) \/ In(x, lb))
+       /\ In(x, Intersection(la, lb)) <=> (In(x, la) /\ In(x, lb))
+       /\ In(x, Diff(la, lb)) <=> (In(x, la) /\ ~In(x, lb))
+       /\ In(x, SymDiff(la, lb)) <=> (In(x, la) # In(x, lb))
+  /\ LET u == Unique(la) IN NoDupM(u) /\ Members(u) = Members(la) /\ u = UniqueLoop(la) /\ Unique(u) = u
+  /\ LET g == Grouped(la) IN
+       /\ Concat(g) = la
+       /\ \A j \in 1..Len(g) : g[j] # << >> /\ \A x, y \in Range1(g[j]) : Equal(x, y)
+       /\ \A j \in 1..(Len(g) - 1) : ~Equal(g[j][Len(g[j])], g[j + 1][1]))
+
+LeqX(x, y) == ~Lt(y, x)
+XPermLaws == On("xperm",
+  LET num == IsNum(la[1])  srt == SortedX(la)  len == Len(la) IN
+  /\ IsPermOf(srt, la) /\ \A i \in 1..(len - 1) : LeqX(srt[i], srt[i + 1])
+  /\ \A p \in PermsOf(la) :
+       /\ Equal(MinEl(p), MinEl(la)) /\ Equal(MaxEl(p), MaxEl(la))
+       /\ Equal(MedLowEl(p), MedLowEl(la)) /\ Equal(MedHighEl(p), MedHighEl(la))
+       /\ num => /\ QCmp(SumQ(p), SumQ(la)) = 0 /\ QCmp(ProdQ(p), ProdQ(la)) = 0
+                 /\ QCmp(MedianSumQ(p), MedianSumQ(la)) = 0
+  /\ \A i \in 1..len : LeqX(MinEl(la), la[i]) /\ LeqX(la[i], MaxEl(la))
+  /\ LeqX(MinEl(la), MedLowEl(la)) /\ LeqX(MedLowEl(la), MedHighEl(la)) /\ LeqX(MedHighEl(la), MaxEl(la))
+  /\ len % 2 = 1 => MedLowEl(la) = MedHighEl(la)
+  /\ 2 * Cardinality({i \in 1..len : Lt(la[i], MedLowEl(la))}) < len
+  /\ 2 * Cardinality({i \in 1..len : Lt(MedHighEl(la), la[i])}) < len
+  /\ 2 * Cardinality({i \in 1..len : LeqX(la[i], MedLowEl(la))}) >= len
+  /\ 2 * Cardinality({i \in 1..len : LeqX(MedHighEl(la), la[i])}) >= len
+  \* the textbook laws that hold to the last bit: sum([x]) = x, sum([x, x]) = 2 x, prod([x]) = x
+  /\ (num /\ len = 1) => /\ QCmp(SumQ(la), QV(la[1])) = 0 /\ QCmp(ProdQ(la), QV(la[1])) = 0
+                          /\ ExactSum(la) = (AllIntX(la) \/ Rep53(QV(la[1])))
+  /\ (num /\ len = 2 /\ la[1] = la[2]) => QCmp(SumQ(la), QScale(QV(la[1]), BTwo)) = 0
+  /\ (num /\ ExactMean(la)) => QCmp(QScale(MeanQ(la), FromInt(len)), SumQ(la)) = 0)
+
+\* compact lists: the element-valued / limb-valued definitions are the Key / half-unit ones
+AgreeLaws == On("perm",
+  /\ Key(MinEl(la)) = MinKey(la) /\ Key(MaxEl(la)) = MaxKey(la)
+  /\ Key(MedLowEl(la)) = MedianLowKey(la) /\ Key(MedHighEl(la)) = MedianHighKey(la)
+  /\ IsNum(la[1]) =>
+       /\ QCmp(SumQ(la), QQ(FromInt(Sum2(la)), 1)) = 0
+       /\ QCmp(ProdQ(la), QQ(FromInt(Prod2(la)), Len(la))) = 0
+       /\ AllIntX(la) = AllInt(la)
+       /\ ExactSum(la) /\ ExactProd(la)           \* multiples of 0.5 of small magnitude: always exact
+       /\ QCmp(MedianSumQ(la), QQ(FromInt(Median(la).n), 1)) = 0)
+
+PowLaws ==
+  /\ On("pow",
+       LET A == FromInt(a)  r == Pow(A, n)  h == n \div 2 IN
+       /\ r = Mul(Pow(A, h), Pow(A, n - h))
+       /\ r = Mul(Pow(A, n - 1), A)
+       /\ PowX(A, FromInt(n)) = r
+       \* the conditions used for the powers TLC cannot multiply out: true of the power ...
+       /\ PowPlausible(r, A, n) /\ ResiduesAgree(r, A, n) /\ SizeBracket(r, A, n) /\ r.sg = SignOfPow(A, n)
+       /\ IsTen(A) => r = PowOfTen(A, n)
+       \* ... and false of its neighbours, its negation, its float-like truncation
+       /\ ~PowPlausible(Add(r, One), A, n) /\ ~PowPlausible(Sub(r, One), A, n) /\ ~PowPlausible(Neg(r), A, n)
+       /\ ~PowPlausible(Mul(r, A), A, n)
+       /\ LET tr == [sg |-> r.sg, mag |-> [i \in 1..Len(r.mag) |-> IF i <= Len(r.mag) - 5 THEN 0 ELSE r.mag[i]]]
+          IN tr # r => ~PowPlausible(tr, A, n)             \* the leading 17-20 digits only (a float)
+       /\ \A i \in 1..Len(PowModuli) : ModSmall(r, PowModuli[i]) = ToInt(FloorMod(r, FromInt(PowModuli[i]))))
+  /\ On("powbig",
+       LET A == FromInt(a)  kb == BigExps[n] IN
+       /\ PowX(A, Add(kb, One)) = Mul(PowX(A, kb), A)
+       /\ PowX(A, Add(kb, kb)) = Mul(PowX(A, kb), PowX(A, kb))
+       /\ PowX(A, kb) \in {Zero, One, Neg(One)}
+       /\ PowX(A, Zero) = One)
 
 TypeOK == /\ st \in {"fam", "one", "args", "done"}
           /\ fam \in Fams
